@@ -15,7 +15,7 @@ portus' numbering = libccp's numbering.  Anything the translator does not recogn
 import glob, os, re, sys
 
 REPO = os.environ.get("VERIF_REPO", "/repo")
-OUT = os.path.join(os.path.dirname(os.path.dirname(os.path.abspath(__file__))), "lean", "PortusModel", "Generated", "Tables.lean")
+OUT = os.environ.get("VERIF_TABLES_OUT") or os.path.join(os.path.dirname(os.path.dirname(os.path.abspath(__file__))), "lean", "PortusModel", "Generated", "Tables.lean")
 BAD = 999999
 
 OPS = {"Add": "add", "And": "and", "Bind": "bind", "Def": "def", "Div": "div", "Equiv": "equiv", "Ewma": "ewma", "Gt": "gt",
@@ -265,6 +265,42 @@ def wire(notes):
     return w
 
 
+def handle_logic(notes):
+    """src/lib.rs: the name -> register resolution closure of Datapath::set_program / update_field (which classes may be updated,
+    the reserved prefix, the value passed on unchanged), and the decision order and error kinds of Report::get_field"""
+    t = " ".join(nocomment(open(os.path.join(REPO, "src/lib.rs")).read()).split())
+    upd = {"ok": False}
+    cl = re.findall(r"\.map\(\|&\(reg_name, new_value\)\| \{ (.*?) \}\) \.collect::<Result<_>>\(\)\?;", t)
+    if len(cl) != 2:
+        notes.append("lib.rs: expected the resolution closure twice (set_program, update_field), found %d" % len(cl))
+    else:
+        upd["same"] = cl[0] == cl[1]
+        if not upd["same"]:
+            notes.append("lib.rs: set_program and update_field resolve field names differently")
+        m = re.fullmatch(
+            r'if reg_name\.starts_with\("([^"]*)"\) \{ return Err\(Error\(format!\( "[^"]*", reg_name \)\)\); \} '
+            r'sc\.get\(reg_name\) \.ok_or_else\(\|\| Error\(format!\("[^"]*", reg_name\)\)\) \.and_then\(\|reg\| match \*reg \{ '
+            r'Reg::Control\(idx, ref t, v\) => \{ Ok\(\(Reg::Control\(idx, t\.clone\(\), v\), u64::from\(new_value\)\)\) \} '
+            r'Reg::Implicit\(idx, ref t\) if ((?:idx == \d+(?: \|\| )?)+) => \{ Ok\(\(Reg::Implicit\(idx, t\.clone\(\)\), u64::from\(new_value\)\)\) \} '
+            r'_ => Err\(Error\(format!\("[^"]*", reg_name\)\)\), \}\)', cl[0])
+        if not m:
+            notes.append("lib.rs: the resolution closure is not in the recognised form")
+        else:
+            upd.update(ok=True, prefix=m.group(1), implicit=[int(x) for x in re.findall(r"idx == (\d+)", m.group(2))])
+    gf = {"ok": False}
+    m = re.search(
+        r"pub fn get_field\(&self, field: &str, sc: &Scope\) -> Result<u64> \{ "
+        r"if sc\.program_uid != self\.program_uid \{ return Err\(Error::from\((\w+)\)\); \} "
+        r"match sc\.get\(field\) \{ Some\(r\) => match \*r \{ Reg::Report\(idx, _, _\) => \{ "
+        r"if idx as usize (>=|>) self\.fields\.len\(\) \{ Err\(Error::from\((\w+)\)\) \} else \{ Ok\(self\.fields\[idx as usize\]\) \} \} "
+        r"_ => Err\(Error::from\((\w+)\)\), \}, None => Err\(Error::from\((\w+)\)\), \} \}", t)
+    if not m:
+        notes.append("lib.rs: Report::get_field is not in the recognised form")
+    else:
+        gf.update(ok=True, stale=m.group(1), cmp=m.group(2), short=m.group(3), wrong=m.group(4), missing=m.group(5))
+    return upd, gf
+
+
 # ---------------------------------------------------------------- libccp
 def libccp_dir():
     c = sorted(glob.glob(os.path.expanduser("~/.cargo/registry/src/*/libccp-1.2.0/libccp")))
@@ -310,6 +346,7 @@ def main():
     bi, macros_ok = builtins(notes)
     w = wire(notes)
     lc = libccp(notes)
+    upd, gf = handle_logic(notes)
 
     def pairs(l, f=lambda x: str(x)):
         return "[" + ", ".join("(%s, %s)" % (lstr(a), f(b)) for a, b in l) + "]"
@@ -348,6 +385,14 @@ def main():
         ps = " ".join(params)
         L.append("/-- `get_hdr` of %s: the header's length field -/" % c)
         L.append("def %s (hdr%s : Nat) : Nat := %s" % (nm, (" " + ps) if ps else "", le if le is not None else str(BAD)))
+    L.append("/-- `Datapath::set_program` / `update_field` (`src/lib.rs`): the closure that resolves a field name to a register -/")
+    L.append("def srcUpdFilter : UpdFilter :=\n  { recognised := %s, sameInBoth := %s, reservedPrefix := %s, implicitOk := [%s] }" % (
+        "true" if upd.get("ok") else "false", "true" if upd.get("same") else "false", lstr(upd.get("prefix", "?")),
+        ", ".join(str(x) for x in upd.get("implicit", []))))
+    L.append("/-- `Report::get_field` (`src/lib.rs`): uid comparison first, then the lookup, the class, the bound; the error type of each refusal -/")
+    L.append("def srcGetField : GfTable :=\n  { recognised := %s, staleErr := %s, boundIsGe := %s, shortErr := %s, wrongClassErr := %s, notFoundErr := %s }" % (
+        "true" if gf.get("ok") else "false", lstr(gf.get("stale", "?")), "true" if gf.get("cmp") == ">=" else "false",
+        lstr(gf.get("short", "?")), lstr(gf.get("wrong", "?")), lstr(gf.get("missing", "?"))))
     L.append("")
     L.append("/-! libccp 1.2.0 (`ccp_priv.h`, `serialize.h`, `ccp.h`) -/")
     L.append("def ccpOpcodes : List (String × Nat) := " + pairs(lc["ops"]))
